@@ -90,6 +90,10 @@ func c18options(variants []oracle.Member) []c18opt {
 				out = append(out, c18opt{id: m.ID, runs: 1, kind: 't', tag: tag})
 			case "e":
 				out = append(out, c18opt{id: m.ID, runs: 1, isErr: true, codes: []int{7}, kind: 'a', tag: tag})
+			case "c": // the handler's own context.Canceled: an error response like any other
+				out = append(out, c18opt{id: m.ID, runs: 1, isErr: true, codes: []int{-32097}, tag: tag})
+			case "d":
+				out = append(out, c18opt{id: m.ID, runs: 1, isErr: true, codes: []int{-32096}, tag: tag})
 			case "rpc.serverInfo":
 				out = append(out, c18opt{id: m.ID, kind: 'o', tag: tag})
 			default:
@@ -97,7 +101,7 @@ func c18options(variants []oracle.Member) []c18opt {
 			}
 		case oracle.Note:
 			runs := 0
-			if m.Method == "i" || m.Method == "g" || m.Method == "e" {
+			if m.Method == "i" || m.Method == "g" || m.Method == "e" || m.Method == "c" || m.Method == "d" {
 				runs = 1
 			}
 			out = append(out, c18opt{silent: true, runs: runs, tag: tag})
